@@ -45,7 +45,6 @@ func (node *tagBlockNode) Execute(ctx *ExecutionContext, writer TemplateWriter) 
 	// information behind for the rest of the outer definition)
 	outerInfo, hasOuterInfo := ctx.Private["block"]
 	ctx.Private["block"] = tagBlockInformation{
-		ctx:      ctx,
 		wrappers: blockWrappers[0 : lenBlockWrappers-1],
 	}
 	err := blockWrapper.Execute(ctx, writer)
@@ -62,20 +61,22 @@ func (node *tagBlockNode) Execute(ctx *ExecutionContext, writer TemplateWriter) 
 }
 
 type tagBlockInformation struct {
-	ctx      *ExecutionContext
 	wrappers []*NodeWrapper
 }
 
-func (t tagBlockInformation) Super() (*Value, error) {
+// Super renders the next less-derived definition of the block. ctx is the context
+// of the expression that calls it (provided by the variable resolver): the parent
+// definition is rendered where {{ block.Super }} stands, e.g. with the variables of
+// a loop around it, not in the scope the block was entered with.
+func (t tagBlockInformation) Super(ctx *ExecutionContext) (*Value, error) {
 	lenWrappers := len(t.wrappers)
 
 	if lenWrappers == 0 {
 		return AsSafeValue(""), nil
 	}
 
-	superCtx := NewChildExecutionContext(t.ctx)
+	superCtx := NewChildExecutionContext(ctx)
 	superCtx.Private["block"] = tagBlockInformation{
-		ctx:      t.ctx,
 		wrappers: t.wrappers[0 : lenWrappers-1],
 	}
 
